@@ -1908,9 +1908,11 @@ mzd_t *mzd_extract_l(mzd_t *L, mzd_t const *A) {
   L = mzd_submatrix(L, A, 0, 0, k, k);
   for (rci_t i = 0; i < L->nrows - 1; i++) {
     word *row = mzd_row(L, i);
-    if (m4ri_radix - (i + 1) % m4ri_radix)
-      mzd_clear_bits(L, i, i + 1, m4ri_radix - (i + 1) % m4ri_radix);
-    for (wi_t j = (i / m4ri_radix + 1); j < L->width; j++) { row[j] = 0; }
+    /* clear the entries right of the diagonal, but nothing beyond the last column */
+    int const n = MIN(m4ri_radix - (i + 1) % m4ri_radix, L->ncols - (i + 1));
+    mzd_clear_bits(L, i, i + 1, n);
+    for (wi_t j = ((i + 1) / m4ri_radix + 1); j < L->width - 1; j++) { row[j] = 0; }
+    if ((i + 1) / m4ri_radix + 1 < L->width) row[L->width - 1] &= ~L->high_bitmask;
   }
   return L;
 }
